@@ -825,11 +825,11 @@ def check_C36(rep):
 
     # code -> spec: every length 0..N with random headers, bytes, ready patterns; non-data headers; delayed
     lengths = list(range(0, 14)) + ([31, 64] if quick else [31, 32, 33, 64, 127])
-    long_lengths = [255, 256, 1021, 1023, 1024]      # thorough only, once each (TLC: a few ms per CRC-32 byte)
+    long_lengths = [255, 256, 1021, 1023, 1024]      # thorough only, twice each (TLC: a few ms per CRC-32 byte)
     reps = 2 if quick else 6
     for rep_i in range(reps):
         packets = []
-        for n in lengths + (long_lengths if (not quick and rep_i == 0) else []):
+        for n in lengths + (long_lengths if (not quick and rep_i in (0, 3)) else []):
             pl = [rng.choice([0, 0xFF, rng.getrandbits(8), rng.getrandbits(8)]) for _ in range(n)]
             h = random_header(rng, 8, n)
             packets.append({"hdr": h, "pl": pl, "rdy": rdy_pattern(rng), "hold": rng.choice([1, 1, 2, 4]),
